@@ -845,4 +845,19 @@ example : ∃ j q k, 1 ≤ j ∧ Generated.C11.nollToNm j = some q ∧ q.2 ≠ 0
   ⟨nmToNoll 3 1, (3, 1), (4, 1, 1, 0), (noll_surjective 3 1 (by decide)).1, (noll_surjective 3 1 (by decide)).2, by decide, by decide,
    by rw [gen_nameKey _ _ (by decide)]; rfl⟩
 
+
+/-- the key rule of `zernikes_to_magnitude_angle` (`len(split) < 3 and 'Tilt' not in name`, translated): the names of piston, defocus and the
+    spherical terms are kept whole; `Tilt X/Y` and the three-word names lose their last word (the suffix) — so the dict key of a class is its
+    name structure without the suffix, which `magang_name_keys_injective` shows one-to-one on the classes -/
+theorem gen_keepsWholeName (kind : Int) (h0 : 0 ≤ kind) (h4 : kind ≤ 4) :
+    Generated.C11.keepsWholeName (nameWords kind) (decide (kind = 1)) = decide (kind = 0 ∨ kind = 2 ∨ kind = 3) := by
+  have : kind = 0 ∨ kind = 1 ∨ kind = 2 ∨ kind = 3 ∨ kind = 4 := by omega
+  rcases this with rfl | rfl | rfl | rfl | rfl <;> decide
+
+/-- no word of the two name tables contains a blank or is empty (so the word count of a name is the one of its kind) -/
+theorem names_words_have_no_blank :
+    (Generated.C11.namesTable.all fun e => e.2.toList.all (· ≠ ' ') && e.2.toList ≠ []) = true ∧
+    (Generated.C11.namesMTable.all fun e => e.2.toList.all (· ≠ ' ') && e.2.toList ≠ []) = true := by
+  constructor <;> decide
+
 end C11
